@@ -3,6 +3,9 @@ from .scn import Scenario, h
 
 DROPIN_NAMES = [b"10-a.conf", b"9-a.conf", b"a.conf", b"Z.conf", b".hid.conf", b"nosuffix", b"x.confx",
                 b"\xc3\xa9.conf", b"b.conf", b".conf", b"sub.conf"]
+# different names that a careless comparison takes for equal: same length and same multiplicative hash
+# (djb2: 'a'*33+'z' == 'b'*33+'Y'), same letters in another case, same name up to the first dot
+LOOKALIKE_NAMES = [b"10-az.conf", b"10-bY.conf", b"5-Az.conf", b"5-az.conf", b"q.d.conf", b"q.conf"]
 
 
 def content(rng, tag):
@@ -45,9 +48,13 @@ class Tree:
                 s.mkdir(path)
 
 
-def random_tree(rng, dirs, name, dsfx, postfixes, tagger, p_main=0.6, names=DROPIN_NAMES, owner=None):
-    """dirs: layer directories (lowest first); main file <dir>/<name><dsfx>; drop-ins in <dir>/<name><postfix>/"""
+def random_tree(rng, dirs, name, dsfx, postfixes, tagger, p_main=0.6, names=DROPIN_NAMES, owner=None, decoys=None):
+    """dirs: layer directories (lowest first); main file <dir>/<name><dsfx>; drop-ins in <dir>/<name><postfix>/;
+    decoys: further drop-in directory postfixes which get files but are not to be consulted"""
     t = Tree()
+    if names is DROPIN_NAMES and rng.random() < 0.25:
+        names = DROPIN_NAMES + LOOKALIKE_NAMES + LOOKALIKE_NAMES
+    postfixes = list(postfixes) + [q for q in (decoys or []) if q not in postfixes]
     uid, gid = owner if owner else (None, None)
     seen = set()
     for d in dirs:
@@ -98,7 +105,7 @@ def shape_params(rng, shape):
     name = b"cfg"
     sfx_spelling = rng.choice([b"conf", b".conf", None, b"conf", b""])
     dsfx = b"" if not sfx_spelling else (sfx_spelling if sfx_spelling.startswith(b".") else b"." + sfx_spelling)
-    p = {"name": name, "suffix": sfx_spelling, "dsfx": dsfx, "pre": [], "slot_pre": None, "global_confdirs": None}
+    p = {"name": name, "suffix": sfx_spelling, "dsfx": dsfx, "pre": [], "slot_pre": None, "global_confdirs": None, "decoys": None}
     usr = b"/usr/etc"
     if shape == "project":
         p["dirs"] = [usr + b"/prj", b"/run/prj", b"/etc/prj"]
@@ -135,7 +142,12 @@ def shape_params(rng, shape):
         p["postfixes"] = rng.choice([[b".d"], [b"/conf.d", b".d"], [b".conf.d", b".d"]])
         p["global_confdirs"] = p["postfixes"]
         p["call"] = ("RC", b"prj", usr, name, sfx_spelling)
-    elif shape == "readdirs":
+    if shape in ("dropinonly", "configdirs") and rng.random() < 0.4:
+        # a process-wide list is installed as well; the list of the object has to win
+        other = [q for q in (b"/conf.d", b".g.d", b".conf.d") if q not in p["postfixes"]]
+        p["global_confdirs"] = rng.sample(other, rng.randint(1, 2))
+        p["decoys"] = p["global_confdirs"]
+    if shape == "readdirs":
         u = rng.choice([b"/usr/etc", b"/u", None, b""])
         e = rng.choice([b"/etc", b"/e", None])
         p["dirs"] = [u or b"", e or b""]
@@ -166,7 +178,7 @@ def tree_scenario(sid, rng, shape=None, cb=None, malformed_at=None):
     shape = shape or rng.choice(SHAPES)
     p = shape_params(rng, shape)
     tg = Tagger()
-    t = random_tree(rng, p["dirs"], p["name"], p["dsfx"], p["postfixes"], tg)
+    t = random_tree(rng, p["dirs"], p["name"], p["dsfx"], p["postfixes"], tg, decoys=p["decoys"])
     s = Scenario(sid, {"shape": shape, "suffix": p["suffix"], "nfiles": len(t.files)})
     t.emit(s)
     s.add("LOGOPEN", 1)
